@@ -7,6 +7,7 @@ package main
 // its Get hands to Open is joined by one, not pasted together.
 
 import (
+	"go/token"
 	"go/types"
 	"strings"
 
@@ -69,6 +70,40 @@ func ruleC11Clean(p *Prog, a *Anchors, r *Report) {
 			r.Bad(key, p.InstrPos(open), "%s builds the path it opens by pasting strings together (Sprintf/+): a rooted name below a base directory becomes `base//name`, which an fs.FS rejects — the existing file is reported missing", p.FuncName(get))
 		} else {
 			r.OK(key, p.InstrPos(open), "the opened path is the resolved name, or joined with the base directory by a path function")
+		}
+		// (1b) a base directory joined in front of the name: the name cannot climb out of it. path.Join(base, "../x")
+		// is "x" — the `..` eats the base directory —, so what is joined is the name cleaned as a ROOTED path
+		// (path.Clean("/" + name): no `..` survives at the front of a rooted path)
+		for _, b := range get.Blocks {
+			for _, in := range b.Instrs {
+				jc, ok := in.(*ssa.Call)
+				if !ok || jc.Common().StaticCallee() == nil {
+					continue
+				}
+				if nm := p.extName(jc.Common().StaticCallee()); nm != "path.Join" && nm != "path/filepath.Join" {
+					continue
+				}
+				parts := varargValues(jc.Common().Args[0])
+				if len(parts) < 2 {
+					continue
+				}
+				if _, n2, fld := fieldLoadBase(stripLoad(parts[0])); n2 == nil || fld == "" {
+					continue // not a field of the loader in front
+				}
+				n++
+				key := strings.TrimPrefix(tn, "*") + ".Get:stays-below-base"
+				clamped := true
+				for _, part := range parts[1:] {
+					if !c11RootedClean(p, stripLoad(part), 0) {
+						clamped = false
+					}
+				}
+				if clamped {
+					r.OK(key, p.InstrPos(in), "what is joined behind the base directory was cleaned as a rooted path: it cannot climb out")
+				} else {
+					r.Bad(key, p.InstrPos(in), "%s joins its base directory with a name that can start with `..` (%s): path.Join(base, \"../secret.html\") is \"secret.html\" — a template below the base directory reads files outside it ({%% include \"../secret.html\" %%}), which the same name written rooted, and every other loader, refuse", p.FuncName(get), p.VN(parts[len(parts)-1]))
+				}
+			}
 		}
 		// (2) the sibling Abs: every returned name is cleaned
 		for _, abs := range p.inPkgFuncsSorted(p.allFuncSet()) {
@@ -402,6 +437,47 @@ func c11WritesNodeState(g *ssa.Function) bool {
 				return true
 			}
 		}
+	}
+	return false
+}
+
+// c11RootedClean: v is path.Clean("/" + x) (or path.Join("/", x)), possibly with the leading slash trimmed afterwards:
+// a cleaned rooted path has no `..` element left.
+func c11RootedClean(p *Prog, v ssa.Value, d int) bool {
+	if d > 4 {
+		return false
+	}
+	c, ok := v.(*ssa.Call)
+	if !ok || c.Common().StaticCallee() == nil {
+		return false
+	}
+	switch p.extName(c.Common().StaticCallee()) {
+	case "path.Clean", "path/filepath.Clean":
+		if bo, isBo := c.Common().Args[0].(*ssa.BinOp); isBo && bo.Op == token.ADD {
+			if s, isC := constString(bo.X); isC && strings.HasPrefix(s, "/") {
+				return true
+			}
+		}
+		return false
+	case "path.Join", "path/filepath.Join":
+		parts := varargValues(c.Common().Args[0])
+		if len(parts) > 0 {
+			if s, isC := constString(parts[0]); isC && s == "/" {
+				return true
+			}
+		}
+		return false
+	case "strings.TrimPrefix", "strings.TrimLeft":
+		return c11RootedClean(p, stripLoad(c.Common().Args[0]), d+1)
+	}
+	if callee := c.Common().StaticCallee(); p.InPkg(callee) && callee.Blocks != nil {
+		rets := returnsOf(callee)
+		for _, ret := range rets {
+			if len(ret.Results) == 0 || !c11RootedClean(p, stripLoad(ret.Results[0]), d+1) {
+				return false
+			}
+		}
+		return len(rets) > 0
 	}
 	return false
 }
